@@ -501,6 +501,91 @@ func exec(line string) string {
 			return "bad-op"
 		}
 		return hx.Hex(hashG1(msg).Marshal())
+	case (w[0] == "skhex" || w[0] == "idhex" || w[0] == "idjson") && len(w) == 2:
+		k, ok := bigDec(w[1])
+		if !ok {
+			return "bad-op"
+		}
+		if w[0] == "skhex" {
+			sk := seckeyOf(k)
+			return sk.GetHexString()
+		}
+		var id groupsig.ID
+		id.SetBigInt(k)
+		if w[0] == "idjson" {
+			js, _ := id.MarshalJSON()
+			return string(js)
+		}
+		return id.GetHexString()
+	case (w[0] == "skseth" || w[0] == "idseth" || w[0] == "idunjson") && len(w) == 3:
+		old, ok1 := bigDec(w[1])
+		sb, ok2 := unhex(w[2])
+		if !ok1 || !ok2 {
+			return "bad-op"
+		}
+		var err error
+		var got *big.Int
+		switch w[0] {
+		case "skseth":
+			sk := seckeyOf(old)
+			err = sk.SetHexString(string(sb))
+			got = sk.GetBigInt()
+		case "idseth":
+			var id groupsig.ID
+			id.SetBigInt(old)
+			err = id.SetHexString(string(sb))
+			got = id.GetBigInt()
+		default:
+			var id groupsig.ID
+			id.SetBigInt(old)
+			err = id.UnmarshalJSON(sb)
+			got = id.GetBigInt()
+		}
+		switch {
+		case err == nil:
+			return "ok " + got.String()
+		case strings.Contains(err.Error(), "arg failed"):
+			return "argfail " + got.String()
+		case strings.Contains(err.Error(), "less than min"):
+			return "short " + got.String()
+		}
+		return "err:" + strings.ReplaceAll(err.Error(), " ", "_")
+	case (w[0] == "sighex" || w[0] == "pkhex" || w[0] == "pkjson") && len(w) == 2:
+		b, ok := unhex(w[1])
+		if !ok {
+			return "bad-op"
+		}
+		if w[0] == "sighex" {
+			return groupsig.DeserializeSign(b).GetHexString()
+		}
+		pk := groupsig.ByteToPublicKey(b)
+		if w[0] == "pkjson" {
+			js, _ := pk.MarshalJSON()
+			return string(js)
+		}
+		return pk.GetHexString()
+	case (w[0] == "sigseth" || w[0] == "pkseth" || w[0] == "pkunjson") && len(w) == 3:
+		b, ok1 := unhex(w[1])
+		sb, ok2 := unhex(w[2])
+		if !ok1 || !ok2 {
+			return "bad-op"
+		}
+		if w[0] == "sigseth" {
+			s := groupsig.DeserializeSign(b)
+			err := s.SetHexString(string(sb))
+			return "err=" + b01(err != nil) + " " + sigReport(s)
+		}
+		pk := groupsig.ByteToPublicKey(b)
+		var err error
+		if w[0] == "pkseth" {
+			err = pk.SetHexString(string(sb))
+		} else {
+			err = pk.UnmarshalJSON(sb)
+			if err != nil && strings.Contains(err.Error(), "less than min") {
+				return "short " + pubReport(&pk)
+			}
+		}
+		return "err=" + b01(err != nil) + " " + pubReport(&pk)
 	case w[0] == "skser" && len(w) == 2:
 		k, ok := bigDec(w[1])
 		if !ok {
@@ -707,7 +792,7 @@ func (g *gen) relatedMsgs() []cand {
 		{"base-tail31", cat(b[1:])},              // proper suffix
 		{"zero+tail31", cat([]byte{0}, b[1:])},   // suffix left-padded to 32
 		{"base-head31", cat(b[:31])},             // proper prefix
-		{"base+byte", cat(b, []byte{byte(r.U64())})},
+		{"base+byte", cat(b, []byte{byte(1 + r.Intn(255))})}, // never equal to base+zero
 	}
 }
 
@@ -1279,6 +1364,65 @@ func runCorr(a map[string]string) {
 			do("pkd " + hx.Hex(pb))
 			do("pkb " + hx.Hex(pb))
 		}
+	}
+	// 3b. textual encodings: hex / JSON getters and setters of keys, ids, signatures, public keys
+	{
+		hexv := func(s string) string { return hx.Hex([]byte(s)) }
+		// values with an ODD number of hex digits (top nibble zero), boundaries, random
+		vals := []*big.Int{big.NewInt(0), big.NewInt(1), big.NewInt(15), big.NewInt(16), big.NewInt(255), big.NewInt(256), big.NewInt(4095)}
+		for i := 0; i < nmisc/24; i++ {
+			v := g.scalar()
+			vals = append(vals, v, new(big.Int).Rsh(v, uint(4*(1+r.Intn(5)))), new(big.Int).Rsh(v, uint(r.Intn(250))))
+		}
+		for _, v := range vals {
+			do("skhex " + v.String())
+			do("idhex " + v.String())
+			do("idjson " + v.String())
+			canon := "0x" + v.Text(16)
+			old := g.scalar().String()
+			for _, t := range []string{canon, strings.ToUpper(canon[2:]), "0x" + strings.ToUpper(canon[2:]), "0X" + canon[2:], "0x0" + canon[2:],
+				"0x000" + canon[2:], canon + "g", canon + " ", "0x" + canon[2:] + "_1", canon[:len(canon)-1], "0x", "0", "", "x", "0xzz", "0x+" + canon[2:], "0x-1", "\"" + canon + "\""} {
+				do("skseth " + old + " " + hexv(t))
+				do("idseth " + old + " " + hexv(t))
+				do("idunjson " + old + " " + hexv(t))
+			}
+			var id groupsig.ID
+			id.SetBigInt(new(big.Int).Mod(v, new(big.Int).Lsh(big.NewInt(1), 256)))
+			js, _ := id.MarshalJSON()
+			do("idunjson " + old + " " + hx.Hex(js))
+			do("idseth " + old + " " + hexv(id.GetHexString()))
+		}
+		do("idhex " + new(big.Int).Lsh(big.NewInt(1), 256).String())
+		for i := 0; i < 4+nmisc/20; i++ {
+			sk := g.sk()
+			if i%2 == 0 {
+				sk = g.leadingZeroPubkeySk(i / 2 % 4)
+			}
+			msg := g.msgClass(4 + i%2)
+			sg := groupsig.Sign(seckeyOf(sk), msg)
+			sb := sg.Serialize()
+			pkb := groupsig.GeneratePubkey(seckeyOf(sk)).Serialize()
+			other := g.point()
+			do("sighex " + hx.Hex(sb))
+			do("pkhex " + hx.Hex(pkb))
+			do("pkjson " + hx.Hex(pkb))
+			sh := "0x" + hex.EncodeToString(sb)
+			ph := "0x" + hex.EncodeToString(pkb)
+			for _, t := range []string{sh, strings.ToUpper(sh), "0x" + strings.ToUpper(sh[2:]), sh[:len(sh)-1], sh + "0", sh + "zz", sh[2:], "0x", "", "0x" + sh[2:60] + "g" + sh[61:],
+				"0x" + hex.EncodeToString(other), "0x" + hex.EncodeToString(make([]byte, 64))} {
+				do("sigseth " + hx.Hex(other) + " " + hexv(t))
+				do("sigseth - " + hexv(t))
+			}
+			for _, t := range []string{ph, "0x" + strings.ToUpper(ph[2:]), ph[:len(ph)-1], ph + "00", ph[2:], "0x", "", "0x00", "\"" + ph + "\"", "'" + ph + "'", "\""} {
+				do("pkseth " + hx.Hex(pkb) + " " + hexv(t))
+				do("pkseth - " + hexv(t))
+				do("pkunjson - " + hexv(t))
+				do("pkunjson " + hx.Hex(pkb) + " " + hexv(t))
+			}
+		}
+		do("sighex -")
+		do("pkhex -")
+		do("pkhex 00")
 	}
 	// 4. scalars and ids
 	for i := 0; i < nmisc; i++ {
